@@ -218,6 +218,10 @@ pub struct ChainSim {
     pub live: BTreeMap<NoteKey, SimNote>,
     /// keys spent in the current chain -> (height, txid)
     pub spent: BTreeMap<NoteKey, (u32, TxIdBytes)>,
+    /// roots of the subtrees (2^16 leaves) completed BEFORE the base state, per pool
+    pub prior_roots: [Vec<[u8; 32]>; 3],
+    /// subtrees completed by sim blocks of the current chain: (pool, index, height, root)
+    pub completed_shards: Vec<(Pool, u64, u32, [u8; 32])>,
 }
 
 fn sapling_node(b: &[u8; 32]) -> sapling::Node {
@@ -257,6 +261,8 @@ impl ChainSim {
             rng,
             live: BTreeMap::new(),
             spent: BTreeMap::new(),
+            prior_roots: Default::default(),
+            completed_shards: vec![],
         }
     }
 
@@ -630,18 +636,31 @@ impl ChainSim {
         };
 
         // roll the frontiers forward leaf by leaf
+        const SHARD: u64 = 1 << 16;
+        let lvl16 = incrementalmerkletree::Level::from(16);
+        let mut done: Vec<(Pool, u64, u32, [u8; 32])> = vec![];
         let mut sap: Frontier<sapling::Node, 32> = prev_state.final_sapling_tree().clone();
         for l in &leaves[0] {
             assert!(sap.append(sapling_node(l)));
+            if sap.tree_size() % SHARD == 0 {
+                done.push((Pool::Sapling, sap.tree_size() / SHARD - 1, height, sap.value().unwrap().root(Some(lvl16)).to_bytes()));
+            }
         }
         let mut orc: Frontier<MerkleHashOrchard, 32> = prev_state.final_orchard_tree().clone();
         for l in &leaves[1] {
             assert!(orc.append(orchard_node(l)));
+            if orc.tree_size() % SHARD == 0 {
+                done.push((Pool::Orchard, orc.tree_size() / SHARD - 1, height, orc.value().unwrap().root(Some(lvl16)).to_bytes()));
+            }
         }
         let mut iro: Frontier<MerkleHashOrchard, 32> = prev_state.final_ironwood_tree().clone();
         for l in &leaves[2] {
             assert!(iro.append(orchard_node(l)));
+            if iro.tree_size() % SHARD == 0 {
+                done.push((Pool::Ironwood, iro.tree_size() / SHARD - 1, height, iro.value().unwrap().root(Some(lvl16)).to_bytes()));
+            }
         }
+        self.completed_shards.extend(done);
         let end_state = ChainState::new(h, BlockHash(hash), sap, orc, iro);
 
         let blk = SimBlock {
@@ -664,6 +683,7 @@ impl ChainSim {
     /// as orphans). Returns the orphaned block uids.
     pub fn rewind(&mut self, height: u32) -> Vec<u64> {
         let gone: Vec<u32> = self.blocks.range(height + 1..).map(|(h, _)| *h).collect();
+        self.completed_shards.retain(|s| s.2 <= height);
         let mut uids = vec![];
         for h in gone {
             let b = self.blocks.remove(&h).unwrap();
